@@ -424,6 +424,7 @@ func c02(c *wk.Ctx) {
 		if cs.Route == "" {
 			cs.Route = "unknown"
 		}
+		r.Count("route:"+cs.Route, 1) // an abort is an observed outcome of that route (and is judged below)
 		r.Violation(cs.sig("process-aborted"), fmt.Sprintf("RestoreRdbEntry ended the process (exit %d) under an accepted configuration: %s", d.Result.Exit, firstPanicLine(d.Result.Stderr)), json.RawMessage(d.Desc))
 	}
 	if wk.ReplayOne(c, "c02cases", func(idx int) interface{} { return c02extra{Chunked: idx >= 5000000} }, onDeath) {
